@@ -499,6 +499,7 @@ fn run_free_op(line: &str) -> String {
         "A" => or_panic(guarded(|| run_trace_ast(&toks[1..]))),
         "HT" | "HL" | "HU" | "HC" | "HP" | "HN" | "HB" | "HE" | "HD" | "HW" => or_panic(guarded(|| run_std_op(&toks))),
         "E6" | "E5" => or_panic(guarded(|| run_sweep_block(toks[0], toks[1].parse().expect("block")))),
+        "E1" => or_panic(guarded(|| run_e1_block(toks[1].parse().expect("block")))),
         "" => String::new(),
         _ => format!("UNKNOWN-OP {}", toks[0]),
     }
@@ -618,6 +619,90 @@ fn fnv(h: &mut u64, bytes: &[u8]) {
         *h = h.wrapping_mul(0x100000001b3);
     }
 }
+/// E1: every mapping of at most 5 lines over a 12-line alphabet (classes with a repeated obfuscated name,
+/// an inline pair, overlapping / range-less / inverted / foreign-class entries, a field, a sourceFile
+/// header, a noise line), each with a fixed query universe, through mapper (with and without
+/// parameter index) and cache.  One digest per block of 512 mappings.
+pub const E1_BLOCK: u64 = 512;
+pub const E1_MAXLEN: u32 = 5;
+pub const ALPHA1: &[&[u8]] = &[
+    b"a.A -> x:\n",
+    b"b.B -> y:\n",
+    b"a.C -> x:\n",
+    b"    1:3:void m():10:12 -> f\n",
+    b"    1:3:void n():20 -> f\n",
+    b"    4:6:void m(int) -> f\n",
+    b"    void p(int) -> f\n",
+    b"    2:5:void q.Q.r():7:7 -> g\n",
+    b"    int fld -> f\n",
+    b"# {\"id\":\"sourceFile\",\"fileName\":\"S.kt\"}\n",
+    b"garbage\n",
+    b"    5:4:void inv() -> g\n",
+];
+pub fn e1_queries() -> Vec<String> {
+    let h = |s: &str| hex(s.as_bytes());
+    let mut q = Vec::new();
+    for c in ["x", "y", "z"] {
+        q.push(format!("K {}", h(c)));
+    }
+    for (c, m) in [("x", "f"), ("x", "g"), ("y", "f"), ("y", "g")] {
+        q.push(format!("T {} {}", h(c), h(m)));
+    }
+    for l in 0..8 {
+        q.push(format!("L {} {} {} ~", h("x"), h("f"), l));
+    }
+    for l in [0, 2, 4, 5, 6] {
+        q.push(format!("L {} {} {} {}", h("x"), h("g"), l, h("F.java")));
+    }
+    for (c, m, l) in [("y", "f", 2), ("y", "g", 4), ("y", "f", 0), ("z", "f", 1)] {
+        q.push(format!("L {} {} {} ~", h(c), h(m), l));
+    }
+    for (c, m, p) in [("x", "f", ""), ("x", "f", "int"), ("x", "g", ""), ("y", "f", "int"), ("y", "f", "")] {
+        q.push(format!("P {} {} {}", h(c), h(m), h(p)));
+    }
+    q.push("W".into());
+    q
+}
+/// the explicit cases of one block (used to locate the input when a digest differs)
+pub fn e1_expand(block: u64) -> Vec<String> {
+    let qs = e1_queries();
+    let mut out = Vec::new();
+    for idx in block * E1_BLOCK..(block + 1) * E1_BLOCK {
+        let Some(m) = sweep_string(ALPHA1, E1_MAXLEN, idx) else { break };
+        out.push(format!("M {}", hex(&m)));
+        out.extend(qs.iter().cloned());
+    }
+    out
+}
+fn run_e1_block(block: u64) -> String {
+    let qs = e1_queries();
+    let qrefs: Vec<&str> = qs.iter().map(|s| s.as_str()).collect();
+    let mut h: u64 = 0xcbf29ce484222325;
+    let mut n = 0;
+    let mut answers = Vec::new();
+    for idx in block * E1_BLOCK..(block + 1) * E1_BLOCK {
+        let Some(m) = sweep_string(ALPHA1, E1_MAXLEN, idx) else { break };
+        answers.clear();
+        let ob = OffsetBuf::new(&m, idx as usize);
+        run_mapping_ops(ob.bytes(), &qrefs, &mut answers);
+        for a in &answers {
+            // all layers of the implementation must agree; the common answer is digested
+            let vals: Vec<&str> = a.split(';').filter_map(|p| p.split_once('=')).map(|(_, v)| v).collect();
+            let canon = if a.starts_with("w=") {
+                if a.ends_with(";test=ok;al=1") { vals[0].to_string() } else { format!("!{}", a) }
+            } else if !vals.is_empty() && vals.iter().all(|v| *v == vals[0]) {
+                vals[0].to_string()
+            } else {
+                format!("!{}", a)
+            };
+            fnv(&mut h, canon.as_bytes());
+            fnv(&mut h, b"\n");
+        }
+        n += 1;
+    }
+    format!("dg={:016x};n={}", h, n)
+}
+
 /// bounded-exhaustive sweeps: one digest per block of 4096 inputs
 fn run_sweep_block(kind: &str, block: u64) -> String {
     let (alpha, maxlen) = if kind == "E6" { (ALPHA6, 7) } else { (ALPHA5, 6) };
